@@ -9,7 +9,7 @@ import numpy as np
 from .. import alg
 from ..alg import E, lift, ZERO, ONE
 from ..interp import Interp, RaiseSig
-from ..values import symarr, Record, ClassVal, IntSym
+from ..values import symarr, Record, ClassVal, IntSym, Unsupported
 from .common import public, defloc, short, ident_arr, sym_matrix, enum
 from .c11 import voigt_index
 from . import driver
@@ -148,6 +148,8 @@ def run(ctx):
                 ident_arr(ctx, "C10.history", label, out, ref_average(ms, ("olivine", "enstatite"), (p, q), C_k, nsteps, N0), loc, what="averaged stiffness")
             except RaiseSig as r:
                 ctx.ob("C10.history", label, False, f"raises {r.exc.typename}", loc)
+            except (Unsupported, alg.AlgError) as ex:
+                ctx.ob("C10.history", label, "inconclusive", f"outside the interpreted subset: {str(ex)[:120]}", loc)
         st.attrs["olivine"], st.attrs["enstatite"] = C["olivine"], C["enstatite"]
     ctx.floor("C10.history", 3)
     # aligned grain
